@@ -372,7 +372,7 @@ class CFile:
         return res
 
 
-def extract_statement(text, fname, anchor):
+def extract_statement(text, fname, anchor, nth=None):
     """Return the verbatim text of the complete statement of function fname that
     starts at the unique occurrence of `anchor` (an if/for/while header or a
     simple statement): through the matching '}' of its block, or through the ';'
@@ -381,9 +381,19 @@ def extract_statement(text, fname, anchor):
     _, _, _, b, e = cf.find_function(fname)
     lo, hi = cf.toks[b][2], cf.toks[e][1]
     body = text[lo:hi]
-    if body.count(anchor) != 1:
-        raise SpliceError("%s: extraction anchor %r occurs %d times" % (fname, anchor, body.count(anchor)))
-    start = lo + body.index(anchor)
+    if nth is None:
+        if body.count(anchor) != 1:
+            raise SpliceError("%s: extraction anchor %r occurs %d times" % (fname, anchor, body.count(anchor)))
+        start = lo + body.index(anchor)
+    else:
+        n, total = nth
+        if body.count(anchor) != total:
+            raise SpliceError("%s: extraction anchor %r occurs %d times, contract file expects %d"
+                              % (fname, anchor, body.count(anchor), total))
+        pos = -1
+        for _ in range(n):
+            pos = body.index(anchor, pos + 1)
+        start = lo + pos
     # token index at start
     ti = next(i for i, t in enumerate(cf.toks) if t[1] >= start)
 
